@@ -167,7 +167,7 @@ def execute(case):
     V, keys, obs = [], [], []
     faults = {"write_error": 0, "restart": 0}
     probes = {"unseen_ngram_in_query": 0, "empty_query": 0, "repeated_token_query": 0,
-              "lopsided_posterior": 0, "refit_same_object": 0, "load_of_torn_file": 0, "save_fault_not_reached": 0, "load_compared": 0,
+              "lopsided_posterior": 0, "refit_same_object": 0, "file_replaced_by_rename": 0, "load_of_torn_file": 0, "save_fault_not_reached": 0, "load_compared": 0,
               "model_intact_after_failed_save": 0, "corpus_candidates": 0}
     n_eval = 0
     store = SimStore(faults)
@@ -306,6 +306,16 @@ def execute(case):
                         viol("C16.persistence", "model-changed-by-failed-save",
                              "op %d: a save that raised ENOSPC changed the in-memory model's "
                              "scores" % i)
+            elif k == "MOVE":
+                # the operator replaces a model file behind the library's back (deploy by
+                # rename): an acknowledged save under a staging name is moved over dst
+                src, dst = "sim://" + op["src"], "sim://" + op["dst"]
+                if src in saved and src in store.files:
+                    store.files[dst] = store.files.pop(src)
+                    store.torn.pop(dst, None)
+                    saved[dst] = saved.pop(src)
+                    probes["file_replaced_by_rename"] += 1
+                    obs.append([i, "MOVE", op["src"], op["dst"]])
             elif k == "LOAD":
                 name = "sim://" + op["name"]
                 if name not in saved:
@@ -468,7 +478,7 @@ def plan(prop, tier, seed):
         ops = []
         alphabets = {}
         n_p = 0
-        names = ["a", "b"]
+        names = ["a", "b", "staging"]
         X, y, alpha = _corpus(rng)
         for _ in range(rng.randint(6, 22)):
             r = rng.random()
@@ -497,6 +507,24 @@ def plan(prop, tier, seed):
                 p = rng.choice(sorted(alphabets))
                 ops.append({"op": "SAVE", "p": p, "name": rng.choice(names),
                             "fail_at": rng.choice([None, None, 1, 1, 2])})
+            elif r < 0.835:
+                ops.append({"op": "MOVE", "src": rng.choice(names), "dst": rng.choice(names)})
+            elif r < 0.85 and len(alphabets) >= 1:
+                # a deployment: the live file was loaded before, a newer model is written under
+                # a staging name and renamed over it, then loaded again
+                live = rng.choice(["a", "b"])
+                p_old = rng.choice(sorted(alphabets))
+                X, y, alphabet = _corpus(rng)
+                p_new = n_p
+                n_p += 1
+                alphabets[p_new] = alphabet
+                ops += [{"op": "SAVE", "p": p_old, "name": live, "fail_at": None},
+                        {"op": "LOAD", "name": live, "p": n_p, "src": None},
+                        {"op": "FIT", "p": p_new, "X": X, "y": y, "via": "train", "alpha": 1.0},
+                        {"op": "SAVE", "p": p_new, "name": "staging", "fail_at": None},
+                        {"op": "MOVE", "src": "staging", "dst": live},
+                        {"op": "LOAD", "name": live, "p": n_p + 1, "src": None}]
+                n_p += 2
             elif r < 0.94:
                 src = rng.choice(sorted(alphabets))
                 p = n_p
@@ -511,6 +539,9 @@ def plan(prop, tier, seed):
         for o in ops:
             if o["op"] == "SAVE":
                 last[o["name"]] = o["p"]      # optimistic; executor ignores unacknowledged saves
+            elif o["op"] == "MOVE":
+                if o["src"] in last and o["src"] != o["dst"]:
+                    last[o["dst"]] = last.pop(o["src"])
             elif o["op"] == "LOAD":
                 o["src"] = last.get(o["name"])
                 if o["src"] is not None:
